@@ -107,6 +107,7 @@ def _work_texts(task):
     acc = Acc()
     for i in range(lo, hi):
         text = _TEXTS[i]
+        RW.reset_configs()
         try:
             root = RW.parse(text)
         except Exception:  # noqa
@@ -177,6 +178,27 @@ def run(tier, seed):
 
 
 def replay(case):
+    want = case.get("_core")
+    try:
+        got = _replay_direct(case)
+    except Exception:  # noqa
+        got = []
+    if got and (want is None or any(c == want for c, _ in got)):
+        return got
+    # the tree may only be reachable with the rule-object history of the exploration: re-run that seed
+    saved = list(_TEXTS)
+    _TEXTS[:] = [case["text"]]
+    try:
+        a = _work_texts((0, 1, max(1, len(case.get("trace", [])))))
+    finally:
+        _TEXTS[:] = saved
+    again = [(c, e["examples"][0]["detail"]) for c, e in a.viol.items()]
+    if want is not None and any(c == want for c, _ in again):
+        return [(c, d) for c, d in again if c == want]
+    return again or got
+
+
+def _replay_direct(case):
     roots = RW.run_trace(case["text"], case["trace"])
     tree = roots[-1]
     if roundtrip(tree) is None:
